@@ -192,6 +192,62 @@ func (s *verifC13_state) compare(m *verifC13_mnode, depth int) {
 	}
 }
 
+type verifC13_reporter struct {
+	names   []string
+	cookies []uint64
+	limit   int
+}
+
+func (r *verifC13_reporter) ReportEntry(nextCookie uint64, name path.Component, child DirectoryChild, attributes *Attributes) bool {
+	if r.limit > 0 && len(r.names) >= r.limit {
+		return false
+	}
+	r.names = append(r.names, name.String())
+	r.cookies = append(r.cookies, nextCookie)
+	return true
+}
+
+// compareListing: a listing reports every existing entry (directories always,
+// leaves unless their name matches the hidden-files pattern) exactly once, and
+// resuming from any cookie handed out continues right after that entry.
+func (s *verifC13_state) compareListing(m *verifC13_mnode) {
+	if m.deleted {
+		return
+	}
+	full := &verifC13_reporter{}
+	st := m.real.VirtualReadDir(context.Background(), 0, 0, full)
+	rt.Assert(st == StatusOK, "listing a directory succeeds")
+	want := 0
+	for name, c := range m.children {
+		if c.isDir || !verifC13_hidden(name) {
+			want++
+		}
+	}
+	rt.Assert(len(full.names) == want, "a listing reports every existing, non-hidden entry")
+	seen := map[string]bool{}
+	for k, n := range full.names {
+		c, ok := m.children[n]
+		rt.Assert(ok && (c.isDir || !verifC13_hidden(n)), "a listing only reports existing, non-hidden entries")
+		rt.Assert(!seen[n], "a listing reports no entry twice")
+		seen[n] = true
+		rt.Assert(k == 0 || full.cookies[k] > full.cookies[k-1], "cookies increase along the listing")
+	}
+	for k := range full.names {
+		rest := &verifC13_reporter{}
+		m.real.VirtualReadDir(context.Background(), full.cookies[k], 0, rest)
+		rt.Assert(len(rest.names) == len(full.names)-k-1, "resuming from a cookie reports exactly the entries after it")
+		for j, n := range rest.names {
+			rt.Assert(n == full.names[k+1+j], "resuming from a cookie continues in the same order")
+		}
+		rt.Cover("readdir:resumed")
+	}
+	for _, c := range m.children {
+		if c.isDir {
+			s.compareListing(c)
+		}
+	}
+}
+
 func (s *verifC13_state) countLinks(m *verifC13_mnode, counts map[*verifC13_leaf]int, depth int) {
 	for _, c := range m.children {
 		if c.isDir {
@@ -214,7 +270,30 @@ func (s *verifC13_state) step() {
 		before[x] = verifC13_changeID(x.real)
 		chBefore[x] = x.changes
 	}
-	switch rt.Choose(9) {
+	switch rt.Choose(10) {
+	case 9: // worker-facing: CreateChildren with one new leaf
+		n, c := s.name()
+		overwrite := rt.NondetBool("overwrite existing entries")
+		l := s.env.newLeaf(filesystem.FileTypeRegularFile)
+		err := d.real.CreateChildren(map[path.Component]InitialChild{c: InitialChild{}.FromLeaf(l)}, overwrite)
+		e, exists := d.children[n]
+		switch {
+		case d.deleted:
+			rt.Assert(err == syscall.ENOENT, "a removed directory accepts no new entries")
+			l.links = 0
+		case exists && !overwrite:
+			rt.Cover("op:createchildren-exists")
+			rt.Assert(err == syscall.EEXIST, "CreateChildren without overwrite refuses an existing name")
+			l.links = 0
+		default:
+			rt.Cover("op:createchildren")
+			rt.Assert(err == nil, "CreateChildren succeeds")
+			if exists && e.isDir {
+				verifC13_removeRecursively(e)
+			}
+			d.children[n] = &verifC13_mnode{leaf: l}
+			d.changes++
+		}
 	case 0: // mkdir
 		n, c := s.name()
 		var out Attributes
@@ -517,12 +596,13 @@ func verifHarness_C13_Sequence() {
 	rt.Bound("operations", k)
 	rt.Bound("names", len(names))
 	rt.Bound("directories", 3)
-	rt.MustCover("op:mkdir", "op:create", "op:mknod", "op:link", "op:rename", "op:rename-replace", "op:remove", "op:removeall", "op:enter-replaces-leaf", "op:enter-deleted", "op:removeallchildren")
+	rt.MustCover("op:mkdir", "op:create", "op:mknod", "op:link", "op:rename", "op:rename-replace", "op:remove", "op:removeall", "op:enter-replaces-leaf", "op:enter-deleted", "op:removeallchildren", "op:createchildren", "op:createchildren-exists", "readdir:resumed")
 	s := verifC13_newState(names)
 	for i := 0; i < k; i++ {
 		s.step()
 	}
 	s.compare(s.dirs[0], 0)
+	s.compareListing(s.dirs[0])
 	counts := map[*verifC13_leaf]int{}
 	s.countLinks(s.dirs[0], counts, 0)
 	for _, d := range s.dirs[1:] {
@@ -559,4 +639,28 @@ func verifC13_attached(root, d *verifC13_mnode, depth int) bool {
 		}
 	}
 	return false
+}
+
+// Names matching the hidden-files pattern: leaves with such a name are left
+// out of listings (and only of listings); directories never are.
+func verifHarness_C13_HiddenNames() {
+	k := 2
+	if rt.Tier() > 0 {
+		k = 3
+	}
+	rt.Bound("operations", k)
+	rt.MustCover("op:mkdir", "op:create", "hidden:directory", "hidden:leaf")
+	s := verifC13_newState([]string{".h", "a"})
+	for i := 0; i < k; i++ {
+		s.step()
+	}
+	s.compare(s.dirs[0], 0)
+	s.compareListing(s.dirs[0])
+	if e, ok := s.dirs[0].children[".h"]; ok && !s.dirs[0].deleted {
+		if e.isDir {
+			rt.Cover("hidden:directory")
+		} else {
+			rt.Cover("hidden:leaf")
+		}
+	}
 }
